@@ -189,7 +189,8 @@ def to_wire(pel):
     def co(c):
         return dict(flags=c['flags'], prio=c['prio'], loc=c['loc'], fru=fru(c['fru']),
                     pce=[c['pce']] if c.get('pce') is not None else [],
-                    mru=[c['mru']] if c.get('mru') is not None else [])
+                    mru=[c['mru']] if c.get('mru') is not None else [],
+                    order=list(c.get('order') or ['ID', 'PE', 'MR']))
 
     def sec(s):
         s = dict(s)
